@@ -45,6 +45,7 @@ struct _map {
 struct _map_itr {
     m_map_t *m;
     map_elem *curr;
+    map_elem *start;
     bool removed;
 };
 
@@ -55,6 +56,7 @@ static size_t hashmap_hash_string(const char *key);
 static int hashmap_rehash(m_map_t *m);
 static int hashmap_put(m_map_t *m, const char *key, void *value);
 static void clear_elem(m_map_t *m, map_elem *entry);
+static map_elem *hashmap_scan_start(const m_map_t *m);
 
 /*
  * Find the hashmap entry with the specified key, or an empty slot.
@@ -251,6 +253,21 @@ static void clear_elem(m_map_t *m, map_elem *removed_entry) {
     memset(removed_entry, 0, sizeof(map_elem));
 }
 
+/*
+ * Iterations start from an empty slot and wrap around the table,
+ * so that no probe chain straddles the end of the scan: removing the
+ * current entry while iterating can then only shift not yet visited
+ * entries into (or after) the current slot.
+ */
+static map_elem *hashmap_scan_start(const m_map_t *m) {
+    MAP_FOREACH(m->table, m->table_size, {
+        if (!entry->key) {
+            return entry;
+        }
+    });
+    return m->table;
+}
+
 /** Public API **/
 
 /*
@@ -289,20 +306,29 @@ _public_ int m_map_itr_next(m_map_itr_t **itr) {
     M_PARAM_ASSERT(itr && *itr);
     
     m_map_itr_t *i = *itr;
+    map_elem *end = &i->m->table[i->m->table_size];
+    bool found = false;
+    bool done = false;
     if (!i->curr) {
-        /* First time: start from first elem */
-        i->curr = &i->m->table[0];
-    } else {
-        /* Normally: start from subsequent element */
-        i->curr = i->curr + 1 - i->removed;
+        /* First time: start from first elem of the scan */
+        i->start = hashmap_scan_start(i->m);
+        i->curr = i->start;
+        found = i->curr->key != NULL;
+    } else if (i->removed) {
+        /* Current slot may have been refilled by a subsequent entry */
+        found = i->curr->key != NULL;
     }
     
     i->removed = false;
-    bool found = false;
-    for (; i->curr < &i->m->table[i->m->table_size]; i->curr++) {
-        if (i->curr->key) {
+    while (!found && !done) {
+        /* Normally: go on from subsequent element, wrapping around */
+        if (++i->curr == end) {
+            i->curr = i->m->table;
+        }
+        if (i->curr == i->start) {
+            done = true;
+        } else if (i->curr->key) {
             found = true;
-            break;
         }
     }
     
@@ -385,7 +411,9 @@ _public_ int m_map_iterate(const m_map_t *m, m_map_cb fn, void *userptr) {
     M_PARAM_ASSERT(fn);
     M_PARAM_ASSERT(m_map_len(m) > 0);
     
-    MAP_FOREACH(m->table, m->table_size, {
+    const size_t start = hashmap_scan_start(m) - m->table;
+    for (size_t n = 0; n < m->table_size; n++) {
+        map_elem *entry = &m->table[MAP_SIZE_MOD(m, start + n)];
         if (!entry->key) {
             continue;
         }
@@ -402,12 +430,12 @@ _public_ int m_map_iterate(const m_map_t *m, m_map_cb fn, void *userptr) {
         }
         if (entry->key != key) {
             /* Run this entry again if fn() deleted it */
-            --entry;
+            --n;
         } else if (num_entries != m->length) {
             /* Stop immediately if fn put/removed another entry */
             return -EACCES;
         }
-    });
+    }
     return 0;
 }
 
